@@ -11,10 +11,14 @@ def c05():
         rule=("rapidcheck scenarios: pool size 1..16, 1-6 concurrent senders (external threads or programs running inside pool threads), "
               "1-200 sends each to real threads or the virtual thread with every flag combination, optional stalled destination + burst > 2048 "
               "packets (real EAGAIN), schedule plan consumed at the LIBLCB_VERIF points, fault plan failing the k-th queue write/read; plus an "
-              "exhaustive single-fault sweep over every write position of small fixed scenarios. Non-trivial: >=2 senders interleave on one "
+              "exhaustive single-fault sweep over every write position of small fixed scenarios. Two closing phases (mutually exclusive): a late "
+              "burst (destination held in a callback, tp_shutdown(), up to 1900 accepted sends, release: all must be delivered) and a "
+              "shutdown race (an external thread keeps sending while tp_shutdown() is called, every second send held right after its queue "
+              "write, optionally one send held between the state test and the write; relaxed oracle: failure => never ran, never twice). Non-trivial: >=2 senders interleave on one "
               "destination, or a fault/queue-full/failed send occurred, or a direct-call path was taken, or the virtual thread was a destination "
-              "with >=2 threads. distinct = distinct scenario fingerprints."),
-        assumptions=["interleavings are perturbed at marked points and by OS scheduling, not enumerated",
+              "with >=2 threads, or a late burst / shutdown race ran. distinct = distinct scenario fingerprints."),
+        assumptions=["for sends racing with tp_shutdown() 'accepted => delivered' is not asserted (known finding c05_send_accepted_after_last_queue_look_is_lost)",
+                     "interleavings are perturbed at marked points and by OS scheduling, not enumerated",
                      "a 32-byte pipe write is atomic (POSIX), so short writes are not injected",
                      "a hang is reported only if the 20 s ceiling is hit in 3 of 3 runs of the same scenario"],
     )
